@@ -391,6 +391,8 @@ class Engine:
         if self.is_generator:
             if K.returns == "CellSetGen":
                 st.env["__out__"] = SetV(lambda v: z3.BoolVal(False), 2)
+            elif K.returns == "IntSetGen":
+                st.env["__out__"] = SetV(lambda v: z3.BoolVal(False), 1)
             elif K.returns == "TupleList":
                 st.env["__out__"] = self.fresh_tuplist(st, empty=True)
             elif K.returns and K.returns.startswith("Seq[int*"):
@@ -554,7 +556,7 @@ class Engine:
                 if isinstance(v_, (ListV, TupListV)):
                     basic += [v_.n, v_.n - 1]
                 elif nm_.startswith("__k") and isinstance(v_, IntV):
-                    extra.append(v_.t)
+                    extra += [v_.t, v_.t + 1]
             extra += [c_ for c_ in wit_consts if z3.is_int(c_)]
 
             def uniq_(ts):
@@ -1170,9 +1172,18 @@ class Engine:
                 Fb = fresh_fun(nm, z3.IntSort(), z3.BoolSort())
                 return ListV(n, lambda i, Fb=Fb: BoolV(Fb(i)))
             F = fresh_fun(nm, z3.IntSort(), z3.IntSort())
-            return ListV(n, lambda i, F=F: IntV(F(i)))
+            out_ = ListV(n, lambda i, F=F: IntV(F(i)))
+            if getattr(cur, "is_deque", False):
+                out_.is_deque = True
+            return out_
         if isinstance(cur, TupListV):
             return self.fresh_tuplist(st)
+        if isinstance(cur, SetV):
+            ar_ = cur.arity or 1
+            S_ = fresh_fun(nm, *([z3.IntSort()] * ar_ + [z3.BoolSort()]))
+            out_ = SetV((lambda v, S_=S_: S_(Z(v))) if ar_ == 1 else (lambda v, S_=S_: S_(*[Z(x) for x in v])), ar_)
+            out_.fun = S_
+            return out_
         if isinstance(cur, TupV):
             return TupV([self.fresh_like(x, nm, st) for x in cur.items])
         if isinstance(cur, NoneV):
@@ -1331,6 +1342,14 @@ class Engine:
         if isinstance(base, ObjV) and node.attr in base.fields:
             return base.fields[node.attr]
         if isinstance(base, ObjV) and base.cls == "type":
+            info = self.repo.classes.get(base.fields["name"])
+            if info is not None and "Enum" in info["bases"]:
+                # Enum member with an integer value: modelled by that value (members of one Enum are
+                # distinct objects exactly when their values are distinct)
+                for n_ in info["node"].body:
+                    if isinstance(n_, ast.Assign) and len(n_.targets) == 1 and isinstance(n_.targets[0], ast.Name) and n_.targets[0].id == node.attr \
+                            and isinstance(n_.value, ast.Constant) and isinstance(n_.value.value, int):
+                        return IntV(n_.value.value)
             return ObjV("attr", {"of": base, "name": node.attr})
         if node.attr == "__class__":
             if isinstance(base, SeqV) and base.kind == "Perm":
@@ -2308,6 +2327,11 @@ class Engine:
             return self.fresh_mesh("res", st, assume=False)
         if r is None or r == "none":
             return NONE
+        if r in ("IntSet", "IntSetGen"):
+            S1 = fresh_fun("res_set", z3.IntSort(), z3.BoolSort())
+            out = SetV(lambda v: S1(Z(v)), 1)
+            out.fun = S1
+            return out
         if r == "CellSet":
             S_ = fresh_fun("res_cells", z3.IntSort(), z3.IntSort(), z3.BoolSort())
             out = SetV(lambda v: S_(Z(v[0]), Z(v[1])), 2)
